@@ -9,12 +9,12 @@ CONSTANT Pairs
 VARIABLES c
 Kinds == {"matching_cost", "aggregation", "disparity", "refinement", "filter", "validation", "cost_volume_confidence", "multiscale"}
 IntVals == {I(n) : n \in {-2, -1, 0, 1, 2, 3, 4, 5, 6, 7, 8, 9}}
-FltVals == {F(m) : m \in {-1000, 0, 10, 500, 700, 999, 1000, 1500, 2000, 30000}}
-Universe == IntVals \cup FltVals \cup {S("NaN"), S("inf"), S("-inf"), S("x"), S("r"), S("g"), S("b"), S("mc-cnn"), S("sgm"), S("mc_cnn"), B(TRUE), Null}
+FltVals == {F(m) : m \in {-1000, 0, 10, 500, 600, 700, 900, 999, 1000, 1500, 2000, 30000}}
+Universe == IntVals \cup FltVals \cup {S("NaN"), S("inf"), S("-inf"), S("x"), S("r"), S("g"), S("b"), S("mc-cnn"), S("sgm"), S("mc_cnn"), S(""), B(TRUE), B(FALSE), Null}
 OneParamOk == {x \in [kind : Kinds, method : {"sad", "ssd", "census", "zncc", "cbca", "wta", "vfit", "quadratic", "median", "bilateral",
                                               "median_for_intervals", "cross_checking_accurate", "ambiguity", "risk", "std_intensity",
                                               "interval_bounds", "fixed_zoom_pyramid", "no_such_method"},
-                       pi : 0..4, v : Universe, mb : 0..2] :
+                       pi : 0..8, v : Universe, mb : 0..2] :
                   /\ (x.method \in Methods(x.kind) \/ x.method = "no_such_method")
                   /\ x.pi <= Len(Params(x.kind, x.method))
                   /\ (x.pi = 0 => x.v = Null)
